@@ -443,24 +443,40 @@ inductive Attempt (α : Type) where
   /-- the payload the document points at is gone (stale pointer) -/
   | stale
 
+/-- what `get_opts` serves for document `d` from payload bytes `b` (backend time `bt`), the
+preconditions already answered and stripped to `o'`: the backend evaluates what was left of the
+options against the payload object, the logical metadata comes from the document -/
+def servedOut (k : Path) (d : Doc) (o' : GetOpts) (b : Bytes) (bt : Nat) : Except Err Out :=
+  match checkPreconditions o' none bt with
+  | .error e => .error e
+  | .ok () =>
+      match readRange b o'.range with
+      | .error e => .error e
+      | .ok (rng, data) =>
+          .ok (.got { path := k, size := d.size, tok := d.etag, time := (logicalLM d).getD bt } rng data)
+
+/-- the range is invalid for an object of `size` bytes -/
+def rangeFails (r : Option Range) (size : Nat) : Bool :=
+  match r with
+  | none => false
+  | some r => match asRange r size with | .error _ => true | .ok _ => false
+
+/-- the payload fetch of one attempt. `EncryptedStore` (`enc`) resolves the caller's range against the
+size recorded in the document *before* it reads the payload (chunk-span arithmetic); `MetaStore`
+leaves the range to the backend. -/
+def getFetch (enc : Bool) (be : Backend) (k : Path) (d : Doc) (o' : GetOpts) : Attempt Out :=
+  if enc && rangeFails o'.range d.size then .done (.error .generic)
+  else
+    match aget be (payloadPath k d.gen) with
+    | none => .stale
+    | some ⟨.blob b, bt⟩ => .done (servedOut k d o' b bt)
+    | some _ => .done (.error .generic)
+
 /-- one attempt of `get_opts` after the document has been resolved -/
-def getAttempt (be : Backend) (k : Path) (d : Doc) (o : GetOpts) : Attempt Out :=
-  let lm := logicalLM d
-  match checkGetPreconditions o d.etag lm with
+def getAttempt (enc : Bool) (be : Backend) (k : Path) (d : Doc) (o : GetOpts) : Attempt Out :=
+  match checkGetPreconditions o d.etag (logicalLM d) with
   | .error e => .done (.error e)
-  | .ok o' =>
-      match aget be (payloadPath k d.gen) with
-      | none => .stale
-      | some ⟨.blob b, bt⟩ =>
-          -- the backend answers what was left of the options against the payload object
-          match checkPreconditions o' none bt with
-          | .error e => .done (.error e)
-          | .ok () =>
-              match readRange b o'.range with
-              | .error e => .done (.error e)
-              | .ok (rng, data) =>
-                  .done (.ok (.got { path := k, size := d.size, tok := d.etag, time := lm.getD bt } rng data))
-      | some _ => .done (.error .generic)
+  | .ok o' => getFetch enc be k d o'
 
 def rangesAttempt (be : Backend) (k : Path) (d : Doc) (rs : List (Nat × Nat)) : Attempt Out :=
   match validateRanges d.size rs with
@@ -480,8 +496,8 @@ def outOf : Except Err Out → Out
 
 /-- the retried attempt of `get_opts` if the source did *not* evaluate the preconditions again on the
 re-resolved document: the conditions were answered (and stripped) against the first document -/
-def getAttemptNoCheck (be : Backend) (k : Path) (d : Doc) (o : GetOpts) : Attempt Out :=
-  getAttempt be k d { range := o.range, head := o.head }
+def getAttemptNoCheck (enc : Bool) (be : Backend) (k : Path) (d : Doc) (o : GetOpts) : Attempt Out :=
+  getAttempt enc be k d { range := o.range, head := o.head }
 
 /-- the read loop shared by `get_opts` and `get_ranges`: resolve, try, re-resolve once on a stale
 pointer and try again (`retry`: the same attempt, preconditions included, unless the generated
@@ -644,8 +660,9 @@ def wStep (w : W) (now : Nat) : Call → W × Out
   | .put k mode data => runPlan w now (planWrite w (Gen.SidecarOrder.putOrder w.flavor) (Gen.SidecarOrder.putTagSeeded w.flavor) now k mode data) 1
   | .mput k parts => runPlan w now (planWrite w (Gen.SidecarOrder.completeOrder w.flavor) (Gen.SidecarOrder.completeTagSeeded w.flavor) now k .overwrite (concatParts parts)) 1
   | .get k o =>
-      readLoop w k (fun be d => getAttempt be k d o)
-        (fun be d => if Gen.SidecarOrder.getRecheckInRetry w.flavor then getAttempt be k d o else getAttemptNoCheck be k d o)
+      let enc := decide (w.flavor = .encrypted)
+      readLoop w k (fun be d => getAttempt enc be k d o)
+        (fun be d => if Gen.SidecarOrder.getRecheckInRetry w.flavor then getAttempt enc be k d o else getAttemptNoCheck enc be k d o)
   | .getRanges k rs =>
       if rs.isEmpty then (w, .ranges [])
       else readLoop w k (fun be d => rangesAttempt be k d rs) (fun be d => rangesAttempt be k d rs)
